@@ -436,6 +436,11 @@ def judge(case, sv):
         problems.append(("not-cancelled", f"source produced {r['produced']} elements ({r['pulled']} pulls) where {r['needed']} are needed; {how}"))
     elif r["status"] != "returned":
         problems.append(("subscribe-raised", f"subscribe() ended by {r['status']} after {r['produced']} elements"))
+    elif source == "from_iterable" and r["pulled"] > r["needed"]:
+        # from_iterable pulls its (user-supplied) iterator one element at a time and checks for disposal before each pull:
+        # once the consumer has terminated it must not advance the iterator again (the pull is user code running after the
+        # subscription ended).  On the unchanged tree pulls == needed in every terminating configuration.
+        problems.append(("pulled-after-cancellation", f"the iterable was advanced {r['pulled']} times where {r['needed']} elements are needed: {r['pulled'] - r['needed']} pull(s) after the consumer terminated"))
     if r["exact"] is None:
         kinds = "".join(kd for (kd, _) in r["outs"])
         if r["status"] == "returned" and (not kinds or kinds[-1] not in "CE" or "C" in kinds[:-1] or "E" in kinds[:-1]):
